@@ -10,13 +10,18 @@ import importlib
 import inspect
 import re
 
-_ACCEL = re.compile(r"^try:\n(?:    .*\n)*?    from _\w+ import .*\n(?:    .*\n)*?except ImportError:\n(?:    .*\n)+", re.M)
+_ACCEL = re.compile(r"^(try:\n)    from _\w+ import .*\n", re.M)
 
 
 def _source(modname, extra=""):
     mod = importlib.import_module(modname)
     src = inspect.getsource(mod)
-    src = _ACCEL.sub("", src)
+    # `try: from _accelerator import ...  except ImportError: <fallback>`: the import is made to fail, so the fallback runs
+    src = _ACCEL.sub(r"\1    raise ImportError('C accelerator disabled by the harness')\n", src)
+    pkg = modname.rpartition(".")[0]
+    if pkg:
+        # the copy is a top-level module: relative imports become absolute ones
+        src = re.sub(r"^(\s*)from \.(\w*) import ", lambda m_: f"{m_.group(1)}from {pkg}{'.' + m_.group(2) if m_.group(2) else ''} import ", src, flags=re.M)
     return src + "\n\n# ---- wrappers appended by the harness ----\n" + extra
 
 
@@ -25,9 +30,10 @@ def _many(items):
 
 
 SUBJECTS = {}
-SCOPE_TEXT = ("copies of 17 pure-Python standard-library modules (bisect, heapq, textwrap, colorsys, fnmatch, shlex, posixpath, difflib, "
-              "string, statistics, ipaddress, urllib.parse, graphlib, copy, pprint, fractions, calendar; C accelerators removed, a few "
-              "wrappers appended) with ~600 fixed calls")
+SCOPE_TEXT = ("copies of 24 pure-Python standard-library modules (bisect, heapq, textwrap, colorsys, fnmatch, shlex, posixpath, difflib, "
+              "string, statistics, ipaddress, urllib.parse, graphlib, copy, pprint, fractions, calendar, json.decoder, json.encoder, "
+              "tokenize, configparser, argparse, _pydatetime, re._parser; C accelerators disabled, relative imports made absolute, a "
+              "few wrappers appended) with ~850 fixed calls")
 
 
 def _corpus_worker(job):
@@ -351,6 +357,176 @@ def _v_fractions(mod):
     v = {"_drv_arith": _many([((1, 2), (1, 3)), ((-3, 4), (0, 1)), ((7, 1), (2, 1)), ((10 ** 30, 3), (1, 10 ** 30)), ((0, 5), (5, 7)), ((1, 0), (1, 1)),
                               ((3, -6), (1, 2))])}
     v["_drv_parse"] = _many([(t,) for t in ("3/4", " -1/2 ", "1.5", "1e-3", "abc", "1/0", "+7", "0.1e1/3", "١/٢", "1_000/3")] + [(0.1,), (1.5,), (float("nan"),)])
+    return v
+
+
+@subject("json_decoder", "json.decoder", extra='''
+def _drv_loads(text):
+    return JSONDecoder().decode(text)
+
+
+def _drv_pyscan(text):
+    # the pure-Python scanner and string parser (the C ones are what json normally uses)
+    import json.scanner as _sc
+    d = JSONDecoder()
+    d.parse_string = py_scanstring
+    d.parse_object = JSONObject
+    d.parse_array = JSONArray
+    d.scan_once = _sc.py_make_scanner(d)
+    return d.decode(text)
+''')
+def _v_json_decoder(mod):
+    texts = ['{"a": [1, 2.5, -3e2, true, false, null], "b": {"c": "x\\\\n\\u00e9"}}', "[]", "{}", '"str"', "1", "-0", "1e999", "[1,]", '{"a" 1}', "",
+             "nul", '{"a": NaN, "b": -Infinity}', '"\\ud83d\\ude00"', '"bad \\x"', "[" * 5 + "]" * 5, ' [ 1 , 2 ] ', '{"k": [{"k": []}]}', "1 2"]
+    return {"_drv_loads": _many([(t,) for t in texts]), "_drv_pyscan": _many([(t,) for t in texts])}
+
+
+@subject("json_encoder", "json.encoder", extra='''
+def _drv_dumps(obj, kw):
+    enc = JSONEncoder(**kw)
+    return "".join(_make_iterencode(
+        {} if enc.check_circular else None, enc.default, py_encode_basestring_ascii if enc.ensure_ascii else py_encode_basestring,
+        enc.indent if enc.indent is None or isinstance(enc.indent, str) else " " * enc.indent, float.__repr__,
+        enc.key_separator, enc.item_separator, enc.sort_keys, enc.skipkeys, True)(obj, 0))
+''')
+def _v_json_encoder(mod):
+    objs = [{"b": [1, 2.5, True, None], "a": "é\n\"q\""}, [], {}, "s", 1, [[1, [2, [3]]]], {1: 2, None: 3, True: 4, 2.5: 5}, {(1, 2): 3}, [object], (1, 2),
+            {"k": {"k": {}}}, [float("1e308")], "\u2028\x00"]
+    kws = [{}, {"indent": 2, "sort_keys": True}, {"ensure_ascii": False}, {"skipkeys": True}, {"separators": (",", ":")}, {"indent": "\t"}]
+    v = {"_drv_dumps": _many([(o, kw) for o in objs for kw in kws[:3]] + [(objs[6], kws[3]), (objs[7], kws[3]), (objs[0], kws[4]), (objs[5], kws[5])])}
+    cyc = []
+    cyc.append(cyc)
+    v["_drv_dumps"].append(lambda: ([[]], {"check_circular": False}))
+    return v
+
+
+@subject("tokenize", "tokenize", extra='''
+def _drv_tokens(text):
+    import io
+    return [(tok_name[t.type], t.string, t.start, t.end) for t in generate_tokens(io.StringIO(text).readline)]
+
+
+def _drv_untokenize(text):
+    import io
+    return untokenize(generate_tokens(io.StringIO(text).readline))
+''')
+def _v_tokenize(mod):
+    srcs = ["x = 1\n", "def f(a, *b, **c):\n    return a if b else c\n", "s = 'it''s' \"q\" f'{x!r:>{w}}'\n", "if x:\n  y\n    z\n", "a = (1,\n  2)\n# c\n", "",
+            "x = 0x1f + 1_000 + 1e-3j\n", "'''doc\nstring'''\n", "a \\\n  b\n", "\tx\n", "x = 'unterminated\n", "lambda: (yield)\n", "a@=b;c:=d\n", "é = 'ü'\n"]
+    return {"_drv_tokens": _many([(s_,) for s_ in srcs]), "_drv_untokenize": _many([(s_,) for s_ in srcs[:8]])}
+
+
+@subject("configparser", "configparser", extra='''
+def _drv_read(text, kw):
+    cp = ConfigParser(**kw)
+    cp.read_string(text)
+    out = {s: dict(cp.items(s, raw=True)) for s in cp.sections()}
+    return out, cp.defaults()
+
+
+def _drv_get(text, section, option, how):
+    cp = ConfigParser()
+    cp.read_string(text)
+    return getattr(cp, how)(section, option)
+
+
+def _drv_roundtrip(text):
+    import io
+    cp = ConfigParser()
+    cp.read_string(text)
+    buf = io.StringIO()
+    cp.write(buf)
+    return buf.getvalue()
+''')
+def _v_configparser(mod):
+    texts = ["[a]\nx = 1\ny: two\n[b]\nz =\n", "[DEFAULT]\nd = 9\n[s]\nv = %(d)s0\n", "x = 1\n", "[a]\n[a]\n", "[a]\nk = v\n  cont\n", "[a]\nk\n", "", "[a]\nx = %(x)s\n",
+             "# c\n; d\n[s]\nk = v ; inline\n", "[a]\nb = yes\nn = 0x10\nf = 1.5\n"]
+    v = {"_drv_read": _many([(t, {}) for t in texts] + [(texts[5], {"allow_no_value": True}), (texts[3], {"strict": False}), (texts[8], {"inline_comment_prefixes": (";",)})])}
+    v["_drv_get"] = _many([(texts[1], "s", "v", "get"), (texts[9], "a", "b", "getboolean"), (texts[9], "a", "n", "getint"), (texts[9], "a", "f", "getfloat"),
+                           (texts[0], "a", "nope", "get"), (texts[0], "zz", "x", "get"), (texts[7], "a", "x", "get"), (texts[9], "a", "f", "getboolean")])
+    v["_drv_roundtrip"] = _many([(t,) for t in texts[:2] + texts[4:5]])
+    return v
+
+
+@subject("argparse", "argparse", extra='''
+def _drv_parse(argv):
+    p = ArgumentParser(prog="t", exit_on_error=False, add_help=False)
+    p.add_argument("pos", nargs="?", type=int, default=7)
+    p.add_argument("-v", "--verbose", action="count", default=0)
+    p.add_argument("--name", choices=["a", "b"], required=False)
+    p.add_argument("--nums", nargs="+", type=float)
+    p.add_argument("--flag", action="store_true")
+    g = p.add_mutually_exclusive_group()
+    g.add_argument("--x", action="store_const", const=1)
+    g.add_argument("--y", action="store_const", const=2)
+    sub = p.add_subparsers(dest="cmd")
+    s1 = sub.add_parser("run", exit_on_error=False, add_help=False)
+    s1.add_argument("--fast", action="store_false")
+    try:
+        ns = p.parse_args(argv)
+    except SystemExit as e:        # (errors of nested parsers)
+        return ("exit", e.code)
+    return sorted(vars(ns).items())
+
+
+def _drv_format():
+    p = ArgumentParser(prog="t", description="d" * 90, epilog="e")
+    p.add_argument("pos", help="a positional")
+    p.add_argument("-o", "--opt", metavar="N", type=int, default=3, help="an option (default %(default)s)")
+    return p.format_usage(), p.format_help()
+''')
+def _v_argparse(mod):
+    argvs = [[], ["3"], ["-vv", "--name", "a"], ["--name", "c"], ["--nums", "1", "2.5"], ["--nums"], ["--x", "--y"], ["x"], ["--flag", "5", "run", "--fast"],
+             ["--unknown"], ["--na", "b"], ["-v", "-v", "-v", "run"], ["1", "2"]]
+    return {"_drv_parse": _many([(a,) for a in argvs]), "_drv_format": _many([()])}
+
+
+@subject("pydatetime", "_pydatetime", extra='''
+def _drv_date(y, m, d, days):
+    a = date(y, m, d)
+    b = a + timedelta(days=days)
+    return [a.isoformat(), a.weekday(), a.isocalendar()[:3], a.toordinal(), b.isoformat(), (b - a).days, a < b, a.replace(day=1).isoformat(),
+            a.strftime("%Y/%m/%d %a"), date.fromisoformat(a.isoformat()) == a, date.fromordinal(a.toordinal()) == a]
+
+
+def _drv_delta(args1, args2):
+    a, b = timedelta(*args1), timedelta(*args2)
+    out = [str(a), str(a + b), str(a - b), str(-a), a.total_seconds(), str(a * 3), a < b, bool(a), str(abs(a - b))]
+    if b:
+        out += [a // b, str(a % b), a / b]
+    return out
+
+
+def _drv_dt(text, hours):
+    t = datetime.fromisoformat(text)
+    u = t + timedelta(hours=hours)
+    tz = timezone(timedelta(hours=2), "X")
+    return [t.isoformat(), u.isoformat(sep=" ", timespec="minutes"), t.timetuple()[:6], t.replace(tzinfo=tz).isoformat(), t.replace(tzinfo=tz).utcoffset().total_seconds(),
+            str(u - t), t.date().isoformat(), t.time().isoformat(), t.strftime("%H:%M:%S.%f"), t.replace(tzinfo=timezone.utc).timestamp()]
+''')
+def _v_pydatetime(mod):
+    v = {"_drv_date": _many([(2024, 2, 29, 1), (1999, 12, 31, 1), (1, 1, 1, 0), (2023, 2, 29, 0), (9999, 12, 31, 1), (2024, 13, 1, 0), (2000, 1, 1, -366), (2024, 3, 10, 10 ** 9)])}
+    v["_drv_delta"] = _many([((1, 2, 3), (0, 30)), ((0,), (0,)), ((-1, 0, 1), (0, 0, 7)), ((10 ** 9,), (1,)), ((1.5,), (0, 0.25)), ((1,), (0, 0, 0, 1))])
+    v["_drv_dt"] = _many([("2024-02-29T12:30:15.250000", 13), ("1970-01-01", -1), ("2023-12-31T23:59:59", 1), ("2024-02-30", 0), ("2024-01-01T25:00", 0),
+                          ("2024-06-01T10:00:00+02:00", 5), ("20240601T1000", 1)])
+    return v
+
+
+@subject("sre_parser", "re._parser", extra='''
+def _drv_parse(pattern, flags):
+    p = parse(pattern, flags)
+    return str(p.data)[:600], p.state.groups, sorted(p.state.groupdict.items()), p.getwidth()
+
+
+def _drv_template(repl, pattern):
+    import re
+    return [x if isinstance(x, (int, str, type(None))) else str(x) for x in parse_template(repl, re.compile(pattern))]
+''')
+def _v_sre_parser(mod):
+    pats = ["a|b", "(?P<n>x+)(?P=n)", "[a-z0-9_]+", "a{2,3}?", "(?i:abc)", "(?<=a)b(?!c)", "\\\\d+\\\\.\\\\d*", "(", "a**", "[z-a]", "(?P<n>a)(?P<n>b)", "\\\\1", "(a)|\\\\1",
+            "(?(1)a|b)", "(x)(?(1)a|b)", ".*?$", "^\\\\b\\\\w{3}\\\\b", "[^\\\\]]", "(?x) a b # c", "\\\\N{DIGIT ONE}", "a{,}", "(?:a|ab)*c", "\\\\p"]
+    v = {"_drv_parse": _many([(p, 0) for p in pats] + [("abc", 2), ("a.b", 16), ("é", 256)])}
+    v["_drv_template"] = _many([("\\\\1-\\\\g<n>", "(a)(?P<n>b)"), ("x\\\\n", "a"), ("\\\\g<2>", "(a)"), ("\\\\g<", "(a)"), ("plain", "a"), ("\\\\0", "a")])
     return v
 
 
